@@ -335,7 +335,7 @@ func verifC14Zone() {
 func verifC12Resolve() {
 	types := []uint16{1, 28, 5, 65, 2, 16, 999}
 	typ := types[vInt(0, len(types)-1)]
-	rd := vBytes(vInt(0, 3+2*vTier()))
+	rd := vBytes(vInt(0, 3))
 	cls := vBytes(2)
 	ttl := vBytes(4)
 	answered := false
